@@ -82,6 +82,16 @@ WITNESS = {"kind": "gd", "d": 2, "obj": "quad", "coef": [25.0, 0.5, 0.0, 0.0, 0.
            "inc": 4.0, "dec": 1.5, "tol": 1e-6, "step0": 0.01, "inside_start": True, "idx": "witnessF6"}
 
 
+# exact ties of the constant-step stopping test (residual == tolerance) and exactly reached stationary points (tolerance 0)
+TIES = [
+    {"kind": "gdc", "d": 1, "obj": "quad", "coef": [1.0, 0.0, 0.0], "x": [1.0], "tol": 0.0, "step": 0.5, "idx": "tieA"},     # x -> 0 exactly, residual 0 == tol 0
+    {"kind": "gdc", "d": 1, "obj": "quad", "coef": [1.0, 0.0, 0.0], "x": [1.0], "tol": 1.0, "step": 0.25, "idx": "tieB"},    # gradient norm 1.0 == tol after one step
+    {"kind": "gdc", "d": 2, "obj": "quad", "coef": [1.0, 1.0, 0.0, 0.0, 0.0], "x": [3.0, 4.0], "tol": 5.0, "step": 0.25, "idx": "tieC"},  # |(3,4)| = 5 exactly
+    {"kind": "gdc", "d": 2, "obj": "quad", "coef": [0.5, 0.5, 0.0, 0.0, 0.0], "x": [3.0, 4.0], "tol": 0.0, "step": 1.0, "idx": "tieD"},   # stationary after one step
+    {"kind": "gdc", "d": 1, "obj": "quad", "coef": [2.0, 0.0, 0.0], "x": [0.5], "tol": 0.5, "step": 0.125, "idx": "tieE"},
+]
+
+
 def case_line(p, cap):
     h = vlib.hexf
     if p["kind"] == "gd":
@@ -208,7 +218,7 @@ def run(res, tier, seed, replay_problem=None):
     kmax = {"quick": 10, "thorough": 40}[tier]
     if proof_broken:
         nprob *= 3
-    problems = [dict(WITNESS)]
+    problems = [dict(WITNESS)] + [dict(t) for t in TIES]
     if replay_problem is not None:
         problems = [replay_problem]
         nprob = ncon = 0
